@@ -273,6 +273,33 @@ def c06(prop, tier, seed, core):
 HANDLERS["C06"] = c06
 
 
+def c03(prop, tier, seed, core):
+    m = core.check_progsim_family(prop, tier, seed)
+    work = os.path.join(core.WORK, prop)
+    known_sigs = [e["signature"] for e in core.known_for(prop)]
+    add_hostile(m, core, prop, work, tier, ["many-busy-queues-cancelable"], known_sigs)
+    m["rule"] = core.RULES["progsim"] + (" One separate process (cancelable): three rounds in which ten threads queue 10000 commands each between two collector cycles, then a "
+                                          "child of a watched trace finishes on a later-registered thread and its root finishes; the watched trace must be delivered whole.")
+    return m
+
+
+HANDLERS["C03"] = c03
+
+
+def c02(prop, tier, seed, core):
+    m = core.check_progsim_family(prop, tier, seed)
+    work = os.path.join(core.WORK, prop)
+    known_sigs = [e["signature"] for e in core.known_for(prop)]
+    add_hostile(m, core, prop, work, tier, ["many-threads-span-ids"], known_sigs)
+    m["rule"] = core.RULES["progsim"] + (" One separate process creates one span on each of 66000 short-lived threads and counts span ids handed out twice: ids are a random "
+                                          "32-bit per-thread prefix plus a counter, so about 0.5 chance collisions are expected at that scale; more than 25 is a violation "
+                                          "(a statistical threshold, the only one in this framework), an id of 0 always is.")
+    return m
+
+
+HANDLERS["C02"] = c02
+
+
 def c16(prop, tier, seed, core):
     import subprocess
     # the disabled build lives in its own workspace so that feature unification cannot enable tracing
